@@ -76,6 +76,7 @@ type rebindSpec struct {
 	AtNs   int64 `json:"atNs"`
 	GapNs  int64 `json:"gapNs"`
 	Rebind bool  `json:"rebind"`
+	Again  bool  `json:"again"` // the old socket is closed a second time after the re-bind (deferred Close after an explicit one)
 }
 
 type scenario struct {
@@ -205,10 +206,16 @@ func gen(r *harn.Rng, tier string) interface{} {
 			k = "unsolicited"
 		} else if r.Bool(0.3) {
 			k = "hairpin"
+		} else if r.Bool(0.3) {
+			k = "direct" // a plain datagram between two sockets, judged with the socket table as it is now
 		}
 		sc.Phase2 = append(sc.Phase2, phase2Spec{Kind: k, Obs: r.Intn(64), Alt: r.Intn(8)})
 	}
-	if !faulty && r.Bool(0.04) {
+	floodP := 0.012
+	if tier == "thorough" {
+		floodP = 0.04
+	}
+	if !faulty && r.Bool(floodP) {
 		// flood towards a socket nobody reads: 1000..1100 datagrams from one or two senders
 		to := r.Intn(len(socks))
 		sc.Lazy = &to
@@ -228,7 +235,7 @@ func gen(r *harn.Rng, tier string) interface{} {
 			}
 		}
 	} else if r.Bool(0.12) {
-		sc.Rebind = &rebindSpec{Sock: r.Intn(len(socks)), AtNs: int64(r.Pick(0, 1000, 100000, 1000000, 3000000)), GapNs: int64(r.Pick(0, 1000, 1000000)), Rebind: r.Bool(0.7)}
+		sc.Rebind = &rebindSpec{Sock: r.Intn(len(socks)), AtNs: int64(r.Pick(0, 1000, 100000, 1000000, 3000000)), GapNs: int64(r.Pick(0, 1000, 1000000)), Rebind: r.Bool(0.7), Again: r.Bool(0.4)}
 	}
 	if faulty && r.Bool(0.5) {
 		for i, n := 0, r.Range(1, 2); i < n; i++ {
@@ -766,6 +773,11 @@ func run(env *simrt.Env, sci interface{}) {
 				x.succ = n
 				startReader(n)
 				env.Fault("socket-rebind")
+				if sc.Rebind.Again {
+					env.Sleep(time.Duration(sc.Rebind.GapNs))
+					_ = x.pc.Close()
+					env.Fault("socket-close-again")
+				}
 			}))
 		}
 	}
@@ -825,8 +837,31 @@ func run(env *simrt.Env, sci interface{}) {
 	}
 	sort.Slice(obs, func(i, j int) bool { return obs[i].st.tag < obs[j].st.tag })
 	for _, p := range sc.Phase2 {
-		if len(obs) == 0 || env.Failed() {
+		if env.Failed() {
 			break
+		}
+		if p.Kind == "direct" {
+			from, to := w.socks[p.Obs%len(w.socks)], w.socks[p.Alt%len(w.socks)]
+			if from.closed || to.closed || from.remote != "" || to.bindIP == "0.0.0.0" {
+				continue
+			}
+			st := mkSend(from, &net.UDPAddr{IP: net.ParseIP(to.bindIP), Port: to.port}, "direct", 32)
+			st.phase2 = true
+			if hadStop || w.lossy {
+				st.noLossOK = true
+			}
+			cp := append([]byte(nil), st.payload...)
+			st.call = env.Stamp()
+			if _, err := from.pc.WriteTo(cp, st.dstAddr); err != nil {
+				st.uncertain = true
+			}
+			st.ret = env.Stamp()
+			settle()
+			env.Probe("phase2-direct")
+			continue
+		}
+		if len(obs) == 0 {
+			continue
 		}
 		o := obs[p.Obs%len(obs)]
 		x, err := net.ResolveUDPAddr("udp", o.src)
@@ -886,7 +921,7 @@ func run(env *simrt.Env, sci interface{}) {
 			key := chainKey(orig, lvl)
 			ok := false
 			for _, other := range w.sents {
-				if other.phase2 || other.from != orig.from || len(other.chain) < lvl || other.ret == 0 {
+				if (other.phase2 && other.kind != "direct") || other.from != orig.from || len(other.chain) < lvl || other.ret == 0 {
 					continue
 				}
 				if chainKey(other, lvl) == key && part(c.spec.Filtering, other.dstAddr) == part(c.spec.Filtering, src) {
